@@ -158,7 +158,7 @@ def params_of(t: Tok) -> Set[str]:
 
 
 class _State:
-    __slots__ = ('env', 'defs', 'comps', 'types', 'must', 'dead', 'alias')
+    __slots__ = ('env', 'defs', 'comps', 'types', 'must', 'dead', 'alias', 'pts', 'heap')
 
     def __init__(self):
         self.env: Dict[str, Tok] = {}
@@ -168,6 +168,8 @@ class _State:
         self.must: FrozenSet[str] = frozenset()
         self.dead = False
         self.alias: Dict[str, FrozenSet[str]] = {}
+        self.pts: Dict[str, FrozenSet[str]] = {}      # E3: variable -> abstract locations
+        self.heap: Dict[Tuple[str, str], FrozenSet[str]] = {}   # E3: (location, field) -> locations
 
     def copy(self):
         s = _State()
@@ -178,10 +180,12 @@ class _State:
         s.must = self.must
         s.dead = self.dead
         s.alias = dict(self.alias)
+        s.pts = dict(self.pts)
+        s.heap = dict(self.heap)
         return s
 
     def key(self):
-        return (self.env, self.defs, self.comps, self.must, self.dead, self.alias)
+        return (self.env, self.defs, self.comps, self.must, self.dead, self.alias, self.pts, self.heap)
 
     @staticmethod
     def join(a: '_State', b: '_State') -> '_State':
@@ -203,6 +207,10 @@ class _State:
         s.must = a.must & b.must
         for k in set(a.alias) | set(b.alias):
             s.alias[k] = a.alias.get(k, frozenset()) | b.alias.get(k, frozenset())
+        for k in set(a.pts) | set(b.pts):
+            s.pts[k] = a.pts.get(k, frozenset()) | b.pts.get(k, frozenset())
+        for k in set(a.heap) | set(b.heap):
+            s.heap[k] = a.heap.get(k, frozenset()) | b.heap.get(k, frozenset())
         return s
 
 
@@ -325,6 +333,7 @@ class FuncWalker:
                 st.types[first] = frozenset({f.cls} | set(self.prog.subclasses(f.cls)))
         # enclosing function's variables are visible to nested defs as LOCAL-free tokens
         self.init_state = st
+        self.h_init(st)
         out = self.block(f.node.body, st)
         if not out.dead:
             self.res.returns.append((None, self._ctl(), out.must))
@@ -368,6 +377,25 @@ class FuncWalker:
         res.calls = sorted(self.callrecs.values(), key=lambda c: (c.node.lineno, c.node.col_offset))
         res.defs = {d.did: d for d in self.defrecs.values()}
 
+
+    # ------------------------------------------------------------- E3 hooks (no-ops here, see heap.py)
+    def h_init(self, st):
+        pass
+
+    def h_bind(self, target, rhs, st, node, kind):
+        pass
+
+    def h_call(self, e, cr, st, bound_recv):
+        pass
+
+    def h_aug(self, s, st):
+        pass
+
+    def h_return(self, s, st):
+        pass
+
+    def h_for(self, target, iter_expr, st):
+        pass
 
     # ------------------------------------------------------------- utilities
     def _ctl(self) -> Tok:
@@ -475,6 +503,7 @@ class FuncWalker:
         tys = None
         if s.value is not None:
             v = self.ev(s.value, st)
+            self.h_return(s, st)
             if isinstance(s.value, ast.Tuple):
                 comps = tuple(self.ev(e, st) | self._ctl() for e in s.value.elts)
             elif isinstance(s.value, ast.Name) and s.value.id in st.comps:
@@ -524,16 +553,19 @@ class FuncWalker:
         v = self.ev(s.value, st)
         for t in s.targets:
             self.bind(t, v, s.value, st, s)
+            self.h_bind(t, s.value, st, s, 'assign')
         return st
 
     def s_AnnAssign(self, s, st):
         if s.value is not None:
             v = self.ev(s.value, st)
             self.bind(s.target, v, s.value, st, s)
+            self.h_bind(s.target, s.value, st, s, 'assign')
         return st
 
     def s_AugAssign(self, s, st):
         v = self.ev(s.value, st)
+        self.h_aug(s, st)
         t = s.target
         if isinstance(t, ast.Name):
             old = self.ev(ast.Name(id=t.id, ctx=ast.Load()), st, synthetic=True)
@@ -777,6 +809,7 @@ class FuncWalker:
                 self.bind(target, tv, None, cur, s, kind='for')
                 cur.alias.pop('<iter>', None)
                 self._bind_iter_comps(target, iter_expr, cur, it | ittok)
+                self.h_for(target, iter_expr, cur)
             self.break_states[-1] = []
             self.cont_states[-1] = []
             out = self.block(s.body, cur)
@@ -856,6 +889,7 @@ class FuncWalker:
             v = self.ev(item.context_expr, st)
             if item.optional_vars is not None:
                 self.bind(item.optional_vars, v, item.context_expr, st, s, kind='with')
+                self.h_bind(item.optional_vars, item.context_expr, st, s, 'with')
         return self.block(s.body, st)
 
     def s_Try(self, s, st):
@@ -1236,6 +1270,7 @@ class FuncWalker:
                 result |= v
             result |= self._external_effects(e, ext, attr, recv, args, st)
         result.add(cr.token)
+        self.h_call(e, cr, st, bound_recv)
         # must-events: the call happened
         ev_labels = set()
         for q in callees:
